@@ -9,7 +9,7 @@ import gen_prog
 ID = "C09"
 PROP_FILE = "props/C09.v"
 COQ_TARGETS = ["props/C09.v", "model/SysHist.v"]
-THEOREMS = ["C09_handler_log", "C09_third_party", "C09_histories", "C09_histories_refuted"]
+THEOREMS = ["C09_handler_log", "C09_third_party", "C09_histories", "C09_histories_refuted", "C09_no_rebind_refuted"]
 TRUSTED_BASE = [
     "Coq 8.16.1 kernel, vm_compute for the in-coqc correspondence",
     "model/SysTrace.v: CPython 3.12's trace_trampoline rule (transcribed, validated by K-sys against the real interpreter) and a hand "
@@ -46,8 +46,10 @@ zz = gsum(2)
 
 def gen_case(rng, k):
     src = gen_prog.PRELUDE + (GENS if rng.random() < 0.5 else "") + gen_prog.gen_program(random.Random(rng.random()), rng.choice(["core", "wide"]), nstmts=rng.choice([2, 3]))
-    tp = rng.choice([None, None, "self", "local", "selective"])
+    tp = rng.choice([None, None, "self", "local", "selective", "switch"])
     install = rng.choice(["pre", "pre", "mid", "hist", "hist"]) if tp else None
+    if tp == "switch":
+        install = rng.choice(["hist", "hist", "mid"])         # only model/SysHist.v knows the second local function
     c = {"src": src, "src_mid": "install()\n" + src, "events": SUBSETS[k % len(SUBSETS)], "third_party": tp, "install": install}
     if install == "hist":
         # a history of sys.settrace(A) / sys.settrace(B) / sys.settrace(None) calls made by the user program itself, between its
@@ -212,14 +214,15 @@ def hist_frame(fr, acc="true"):
 def hist_cases_file(rows):
     L = ["From Coq Require Import List NArith Bool Arith.", "Import ListNotations.", "From PyccoloV Require Import gen.SysFlags model.SysHist.",
          "Definition ev (e : sevt) : nat := match e with SCall => 0 | SLine => 1 | SRet => 2 | SExc => 3 end.",
-         "Definition wh (w : who) : nat * nat := match w with WH => (9, 0) | WG i => (0, i) | WL i => (1, i) end.",
+         "Definition wh (w : who) : nat * nat := match w with WH => (9, 0) | WG i => (0, i) | WL i => (1, i) | WL2 i => (2, i) end.",
          "Definition one (tps : nat -> third) (sub : sevt -> bool) (g : option nat) (fs : list node) :=",
-         "  let '(g1, l) := fold_left (fun st f => let '(g0, l0) := st in let '(g', l') := pyc tps sub sys_checks_uninstall sys_wraps_foreign g0 f in (g', l0 ++ l')) fs (g, []) in",
+         "  let '(g1, l) := fold_left (fun st f => let '(g0, l0) := st in let '(g', l') := pyc tps sub sys_checks_uninstall sys_wraps_foreign sys_rebinds_local g0 f in (g', l0 ++ l')) fs (g, []) in",
          "  (match g1 with None => 9 | Some i => i end, map (fun x => (ev (fst x), snd x)) (handler_log l), map (fun x => (wh (fst (fst x)), ev (snd (fst x)), snd x)) (third_log l))."]
     for (S, kind, declined, pre, frames) in rows:
         sub = "fun e => match e with %s end" % " | ".join("%s => %s" % (k, "true" if v in S else "false") for k, v in [("SCall", "call"), ("SLine", "line"), ("SRet", "return"), ("SExc", "exception")])
         acc = "fun nm => negb (existsb (N.eqb nm) [%s])" % "; ".join("%d%%N" % d for d in declined) if kind == "selective" else "fun _ => true"
-        tps = "fun i => match i with O => {| tp_accepts := %s; tp_self := %s |} | _ => {| tp_accepts := fun _ => true; tp_self := true |} end" % (acc, "true" if kind == "self" else "false")
+        tps = ("fun i => match i with O => {| tp_accepts := %s; tp_self := %s; tp_switch := %s |} | _ => {| tp_accepts := fun _ => true; tp_self := true; tp_switch := false |} end"
+               % (acc, "true" if kind == "self" else "false", "true" if kind == "switch" else "false"))
         L.append("Eval vm_compute in one (%s) (%s) %s [%s]." % (tps, sub, "(Some 0%nat)" if pre == "A" else "None", "; ".join(hist_frame(f) for f in frames)))
     return "\n".join(L) + "\n"
 
@@ -302,7 +305,7 @@ def run(ctx, model_ok):
                 inv = {vv: kk for kk, vv in row[5].items()}
                 g1, hl, tl = lib.parse_coq_list(v)
                 mh = [[EV[e], inv[nm]] for e, nm in hl]
-                mt = [["AB"[wi] + ("G" if wk == 0 else "L"), EV[e], inv[nm]] for wk, wi, e, nm in tl]
+                mt = [["AB"[wi] + "GLM"[wk], EV[e], inv[nm]] for wk, wi, e, nm in tl]
                 ih = [[e[0], e[1]] for e in impl[i]["traced"]["hlog"]]
                 it = [[e[0], e[1], e[2]] for e in impl[i]["traced"]["tp_log"]]
                 after = {0: "A", 1: "B", 9: None}[g1]
